@@ -248,7 +248,7 @@ struct Reader {
                 if (k == 0)
                     cap = b->len;
                 int64_t n = std::min<int64_t>(std::min<int64_t>(cap, b->len), L.total - at);
-                if (n > 0) {
+                if (n >= 0) { // an empty first block (an element that had no data when it was converted) is a block too
                     ext.push_back({b->off, n});
                     logical_at.push_back(at);
                 }
